@@ -141,7 +141,16 @@ func runDList(c dlistCase, r *pb.Rec) error {
 			seq := dl[i].All()
 			first := 0
 			seq(func(int) bool { first++; return first < 2 }) // interrupted pass over the same sequence value
-			seq(func(v int) bool { all = append(all, v); return true })
+			var inner []int
+			seq(func(v int) bool {
+				if all = append(all, v); len(all) == 2 { // a second enumeration from inside the callback
+					dl[i].All()(func(x int) bool { inner = append(inner, x); return true })
+				}
+				return true
+			})
+			if len(all) >= 2 && fmt.Sprint(inner) != fmt.Sprint(all) {
+				return fmt.Errorf("%s: list %d: All() started inside an All() callback yields %v, the outer one %v", where, i, inner, all)
+			}
 			if fmt.Sprint(fw) != fmt.Sprint(fwS) || fmt.Sprint(bw) != fmt.Sprint(bwS) || fmt.Sprint(all) != fmt.Sprint(fwS) {
 				return fmt.Errorf("%s: list %d front-to-back %v back-to-front %v All %v; container/list %v / %v", where, i, fw, bw, all, fwS, bwS)
 			}
@@ -502,7 +511,16 @@ func runSList(c slistCase, r *pb.Rec) error {
 		seq := l.All()
 		first := 0
 		seq(func(int) bool { first++; return first < 2 })
-		seq(func(v int) bool { all = append(all, v); return true })
+		var inner []int
+		seq(func(v int) bool {
+			if all = append(all, v); len(all) == 2 {
+				l.All()(func(x int) bool { inner = append(inner, x); return true })
+			}
+			return true
+		})
+		if len(all) >= 2 && fmt.Sprint(inner) != fmt.Sprint(all) {
+			return fmt.Errorf("%s: All() started inside an All() callback yields %v, the outer one %v", where, inner, all)
+		}
 		if fmt.Sprint(tr) != fmt.Sprint(model) || fmt.Sprint(all) != fmt.Sprint(model) {
 			return fmt.Errorf("%s: traversal %v, All %v, model %v", where, tr, all, model)
 		}
